@@ -185,6 +185,41 @@ type Config struct {
 	AfterLinearBlock func(s Step, pipe *pipeline.Pipeline)
 	ResolveCursor    pipeline.CursorResolver
 	DebugSnapshotFor []string
+	// FailWrite > 0: the n-th object write below Dir (tier1 and its tier2 jobs together, in the order they happen) fails
+	// once after consuming its body. Result.Writes counts the object writes below Dir either way.
+	FailWrite int
+}
+
+// object-store write faults (dstore overlay hook), attributed to a run by its cache directory
+type writePlan struct {
+	dir    string
+	n      int64 // writes seen
+	failAt int64
+	hit    int32
+}
+
+var writePlans sync.Map // dir -> *writePlan
+
+func init() {
+	dstore.VerifWriteFault = func(path string) bool {
+		var plan *writePlan
+		writePlans.Range(func(k, v any) bool {
+			if strings.HasPrefix(path, k.(string)+string(filepath.Separator)) {
+				plan = v.(*writePlan)
+				return false
+			}
+			return true
+		})
+		if plan == nil {
+			return false
+		}
+		n := atomic.AddInt64(&plan.n, 1)
+		if plan.failAt > 0 && n == plan.failAt {
+			atomic.StoreInt32(&plan.hit, 1)
+			return true
+		}
+		return false
+	}
 }
 
 type DataMsg struct {
@@ -215,6 +250,9 @@ type Result struct {
 	AfterError int // data messages received after the request returned an error (must be 0)
 	Jobs       []stage.Unit
 	Wall       time.Duration
+	// object writes below Dir during the run; whether the injected write failure (Config.FailWrite) was reached
+	Writes        int
+	WriteFaultHit bool
 }
 
 type collector struct {
@@ -350,6 +388,13 @@ func Run(cfg Config) *Result {
 		res.Err = err
 		return res
 	}
+	wp := &writePlan{dir: cfg.Dir, failAt: int64(cfg.FailWrite)}
+	writePlans.Store(cfg.Dir, wp)
+	defer func() {
+		writePlans.Delete(cfg.Dir)
+		res.Writes = int(atomic.LoadInt64(&wp.n))
+		res.WriteFaultHit = atomic.LoadInt32(&wp.hit) == 1
+	}()
 	var jobsMu sync.Mutex
 	userOnJob := cfg.OnJob
 	cfg.OnJob = func(u stage.Unit) {
